@@ -18,7 +18,7 @@ func init() {
 
 var cliHosts = []string{"example.com", "localhost:8080", "h"}
 var cliPaths = []string{"/", "/index.html", "/a", "/a/b?c=d", "/x%20y"}
-var cliReqNames = []string{"Accept", "X-A", "X-B", "X-Long-Header-Name-0123456789", "Accept-Language", "Referer", "X-Trace", "Cache-Control", "Cookie", "Content-Type"}
+var cliReqNames = []string{"Accept", "X-A", "X-B", "X_Under_Score", "X-Long-Header-Name-0123456789", "Accept-Language", "Referer", "X-Trace", "Cache-Control", "Cookie", "Content-Type"}
 var cliRespNames = []string{"x-resp", "x-r2", "etag", "x-long-response-header", "cache-control", "vary"}
 
 // cliStream is a request the client has put on the wire, as the scripted server sees it.
@@ -141,18 +141,67 @@ func (g *cliGen) genRequest() *cliReq {
 	return v
 }
 
-func (g *cliGen) submit() {
+func (g *cliGen) submit() { g.submitKind("S") }
+
+// submitKind: "S" is a whole Conn.Write, "S1" its first half (the caller must do "S2" later)
+func (g *cliGen) submitKind(kind string) int {
 	tag := g.nextTag
 	g.nextTag++
-	ev := &cliEvent{kind: "S", tag: tag, req: g.genRequest()}
+	ev := &cliEvent{kind: kind, tag: tag, req: g.genRequest()}
 	g.do(ev)
 	g.tags = append(g.tags, tag)
+	g.noteStreams(tag)
+	return tag
+}
+
+func (g *cliGen) noteStreams(tag int) {
+	for _, s := range g.streams {
+		if s.tag == tag {
+			return
+		}
+	}
 	// did the client open a stream for it?
 	for sid, t := range g.run.reqs {
 		if t == tag {
 			g.streams = append(g.streams, g.planResponse(tag, sid))
 		}
 	}
+}
+
+// writeRace: Conn.Write in two halves, with Close (and the write loop, held or not) in between
+func (g *cliGen) writeRace() {
+	r := g.r
+	if g.run.wlGate != nil || g.run.closeRet != nil || g.run.writeGate != nil {
+		return
+	}
+	held := r.chance(50)
+	if held {
+		g.do(&cliEvent{kind: "HW", raw: r.bytes(8)})
+	}
+	tag := g.submitKind("S1")
+	if r.chance(20) {
+		g.grant()
+	}
+	switch r.intn(3) {
+	case 0:
+		g.do(&cliEvent{kind: "C"})
+	case 1:
+		g.do(&cliEvent{kind: "C1"})
+	default:
+		g.do(&cliEvent{kind: "E"})
+	}
+	if held && r.chance(50) {
+		g.do(&cliEvent{kind: "RW"})
+		held = false
+	}
+	g.do(&cliEvent{kind: "S2", tag: tag})
+	g.noteStreams(tag)
+	if held {
+		g.do(&cliEvent{kind: "RW"})
+	}
+	g.noteStreams(tag)
+	g.do(&cliEvent{kind: "C2"})
+	g.dead = true
 }
 
 func (g *cliGen) planResponse(tag int, sid uint32) *cliStream {
@@ -603,7 +652,34 @@ func (g *cliGen) fault() {
 		}
 		g.do(&cliEvent{kind: "C2"})
 		g.dead = true
-	case 6, 7:
+	case 6:
+		// Close racing Write with the write loop out of its select: held at the top of the loop
+		// while Close closes done and a request is handed over, then let go with both ready
+		if g.run.wlGate == nil && g.run.closeRet == nil {
+			g.do(&cliEvent{kind: "HW", raw: r.bytes(8)})
+			if r.chance(30) {
+				g.grant()
+			}
+			g.do(&cliEvent{kind: "C1"})
+			g.submit()
+			if r.chance(30) {
+				g.submit()
+			}
+			if r.chance(30) {
+				g.receiveSome()
+			}
+			g.do(&cliEvent{kind: "RW"})
+			if r.chance(50) {
+				g.receiveSome()
+			}
+			g.do(&cliEvent{kind: "C2"})
+			g.dead = true
+		}
+	case 7:
+		if !g.sc.arm || r.chance(50) {
+			g.writeRace()
+			return
+		}
 		if g.sc.arm && len(g.tags) > 0 {
 			g.do(&cliEvent{kind: "T", tag: g.tags[r.intn(len(g.tags))]})
 		}
